@@ -127,6 +127,12 @@ type loopCtx struct {
 	breaks    []*State
 	continues []*State
 	isSwitch  bool // break target only
+	// for `loop k atbreak` clauses: the loop's spec, its name and the state at the start of the current iteration
+	spec      *LoopSpec
+	name      string
+	iterStart *State
+	bodyEnd   token.Pos
+	nbreak    int
 }
 
 type Frame struct {
